@@ -140,6 +140,17 @@ def _check_on(S, case):
         outs[name] = out
     if len(outs) == 3:
         require(len({frozenset(o) for o in outs.values()}) == 1, "traversals-disagree-as-sets", str(outs))
+    if case.get("cache") and len(outs) == 3 and S.f is not None:
+        # caching on: the same traversal with OTHER filter objects in between (closures of one factory, bound
+        # methods of differently configured objects of one class) must still obey ITS filter
+        for name, fn in (("bft", B.bft), ("dft_recursive", D.dft_recursive), ("dft_iterative", D.dft_iterative)):
+            for mk in (S.fresh_ff, S.fresh_method_ff):
+                try:
+                    fn(S.uni, S.vs[S.start], direction_sensitive=S.d, unknown_handling=S.u, ff_via=mk(accept_all=True))
+                except NotImplementedError:
+                    pass
+                again = S.idx(fn(S.uni, S.vs[S.start], direction_sensitive=S.d, unknown_handling=S.u, ff_via=mk()))
+                require(set(again) == R, "reach-set-mismatch", f"{name} after a call with another filter object (caching on): visited {sorted(again, key=str)}, reachable {sorted(R)}")
     nt = False
     if R is not None and len(R) >= 3:
         G = S.G
